@@ -148,6 +148,31 @@ Theorem non_conforming_argument_error : forall fx self_args nodes gb req name ar
   replace_loop fx self_args nodes (gb :: req) (name :: args) node = Err K_DOES_NOT_CONFORM.
 Proof. intros. cbn [replace_loop]. rewrite H, andb_false_r, H0, H1, H2. reflexivity. Qed.
 
+(* conformance compares the inlined subtrees: a submodule of the interface must be matched by a submodule of the argument
+   that is equal as a TREE (field, symbol, gates as a set, submodules and connections recursively) -- an equal field name
+   and type symbol are not enough (`x: B(C1)` and `x: B(C2)` both carry the symbol B) *)
+Lemma deep_mismatch_not_conform : forall repl iface s,
+  In s (n_subs iface) -> (forall o, In o (n_subs repl) -> sub_eqb o s = false) -> conform_to repl iface = false.
+Proof.
+  intros repl iface s Hs Hno. unfold conform_to. apply andb_false_iff. left. apply andb_false_iff. right.
+  apply not_true_is_false. intros H. rewrite forallb_forall in H. specialize (H s Hs).
+  apply existsb_exists in H as (o & Ho & E). rewrite (Hno o Ho) in E. discriminate.
+Qed.
+
+Lemma sub_eqb_needs_equal_subtrees : forall f f' t t' subs subs' g g' c c',
+  sub_eqb (f, mkNode t subs g c) (f', mkNode t' subs' g' c') = true ->
+  length subs = length subs' /\ forall i a b, nth_error subs i = Some a -> nth_error subs' i = Some b -> sub_eqb a b = true.
+Proof.
+  intros f f' t t' subs subs' g g' c c' H. unfold sub_eqb in H. cbn [fst snd node_eqb] in H.
+  apply andb_true_iff in H as [_ H]. apply andb_true_iff in H as [H _]. apply andb_true_iff in H as [H _].
+  apply andb_true_iff in H as [_ H]. revert subs' H. induction subs as [|[fa na] subs IH]; intros [|[fb nb] subs'] H; try discriminate.
+  - split; [reflexivity|]. intros [|i] a b Ha; discriminate.
+  - apply andb_true_iff in H as [H Hr]. destruct (IH subs' Hr) as [Hl Hn]. split; [cbn [length]; f_equal; exact Hl|].
+    intros [|i] a b Ha Hb; cbn [nth_error] in Ha, Hb.
+    + injection Ha as <-. injection Hb as <-. unfold sub_eqb. cbn [fst snd]. exact H.
+    + exact (Hn i a b Ha Hb).
+Qed.
+
 (* a conforming first argument is substituted and the loop goes on with the next one *)
 Theorem conforming_argument_step : forall fx self_args nodes gb req name args node repl iface gi,
   is_binding self_args name = false -> lookup name nodes = Some (repl, []) ->
